@@ -155,6 +155,13 @@ func c18Catalogue(r *rng.R) []c18prop {
 	add("enum-negative-integers", J{"type": "integer", "format": "int64", "enum": []interface{}{-1, 0, 9007199254740993}})
 	add("enum-numbers", J{"type": "number", "format": "double", "enum": []interface{}{0.5, 2, -1.25}})
 	add("enum-booleans", J{"type": "boolean", "enum": []interface{}{true}})
+	// values that are not binary fractions, on every number format (a float32 field holds them rounded; the document holds them as written)
+	add("enum-float-decimals", J{"type": "number", "format": "float", "enum": []interface{}{0.1, 0.25, 2.7, 1}})
+	add("enum-double-decimals", J{"type": "number", "format": "double", "enum": []interface{}{0.1, 0.3, 1e-7}})
+	add("enum-number-decimals", J{"type": "number", "enum": []interface{}{0.1, 123456.789}})
+	add("enum-small-integer-formats", J{"type": "integer", "format": "int32", "enum": []interface{}{-2147483648, 2147483647}})
+	add("enum-unsigned", J{"type": "integer", "format": "uint64", "enum": []interface{}{0, 4294967296}})
+	add("float-bounds-decimals", J{"type": "number", "format": "float", "minimum": 0.1, "maximum": 2.7, "multipleOf": 0.1})
 	add("readOnly", J{"type": "string", "readOnly": true})
 	add("readOnly-integer", J{"type": "integer", "format": "int32", "readOnly": true, "minimum": 1})
 	for _, f := range []string{"date", "date-time", "uuid", "email", "uri", "byte", "password", "hostname", "ipv4", "duration", "binary"} {
